@@ -1073,6 +1073,9 @@ class FnTr:
                 codes[p] = (None, 'None')
                 continue
             v = self.expr(a, env, pre)
+            if ty.startswith('opt') and v.ty == ty:
+                codes[p] = (None, self.atom(v))         # an Optional passed on as it is
+                continue
             want = ty[3:] if ty.startswith('opt') else ty
             if v.ty != want and not (want == 'labelset' and v.ty == 'labels'):
                 fail(a, f'argument of type {v.ty} where {ty} is expected')
